@@ -188,6 +188,18 @@ def marker(prog):
             e = strip(kids(n)[0], casts=True)
             if e['k'] == 'BinaryOperator' and e.get('op') == '+' and const(kids(e)[1]) is not None:
                 base_w = const(kids(e)[1])
+    if base_w is None:
+        # other spellings (`count++; ... return count;`): the smallest value a match can return
+        from nk.interval import Analyzer
+        fa = Analyzer(prog)._fa_cache(gp)
+        lows = []
+        for n in gp.nodes.values():
+            if n['k'] == 'ReturnStmt' and kids(n) and const(kids(n)[0]) is None:
+                lo = fa.eval_at(kids(n)[0], n)[0]
+                if lo is not None:
+                    lows.append(lo)
+        if lows:
+            base_w = min(lows)
 
     def tested(fn, var):
         for n in fn.nodes.values():
@@ -350,6 +362,23 @@ def find_exhaustive(prog, scope=None, floor=4):
                 l = strip(kids(cs)[0], casts=True)
                 if l['k'] == 'CallExpr' and callee(l) in ('strcmp', 'strcasecmp') and len(b['s']) == 2 and b['s'][0] is not None:
                     matches[bid] = b['s'][0]
+        # MATCH-EXACT: a lookup that compares with strncmp/memcmp over the length of one of the two names matches every
+        # stored name the searched name is a prefix of (or vice versa) unless the terminator is compared as well
+        for bid, b in fn.blocks.items():
+            c = fn.nodes.get(b.get('cond')) if 'cond' in b else None
+            if c is None:
+                continue
+            for x in walk(c):
+                if x['k'] == 'CallExpr' and callee(x) in ('strncmp', 'strncasecmp', 'memcmp'):
+                    a_ = call_args(x)
+                    if len(a_) == 3 and const(a_[2]) is None and natural_loops(fn) and any(bid in body for body in natural_loops(fn).values()):
+                        txt = show(c)
+                        lens = show(a_[2])
+                        term = ('[%s]' % lens) in txt
+                        if not term:
+                            obs.append(Ob('MATCH-EXACT', fn.file, x['l'], fn.q, 'prefix-match:%s' % show(a_[2])[:20], VIOLATED,
+                                          '`%s` compares only %s characters inside a lookup loop: a name that is a prefix of (or has '
+                                          'as prefix) a stored name matches the wrong entry' % (show(x)[:60], lens)))
         if not matches:
             continue
         dom = dominators(fn)
@@ -436,3 +465,31 @@ def _is_header_part(fn, h, bid, body):
         if b.get('termk') == 'BinaryOperator':
             st.extend(s for s in fn.succs(x))
     return False
+
+
+def unget_eof(prog):
+    """UNGET-EOF: characters pushed back with tokens_unget_char() come back from tokens_get_char() with the same int
+    value, EOF (-1) included: the unget buffer's element type is signed (or at least as wide as int), so the
+    `return tokens.unget[--ptr]` conversion to int restores -1.  With an unsigned byte buffer a pushed-back EOF returns
+    as 255 and the text after an `equ` on the last line of an include file (no trailing newline) is misread."""
+    from nk.bitflow import type_width
+    rec = None
+    for name in ('_tokens', 'Tokens'):
+        rec = prog.records.get(name) or rec
+    if rec is None:
+        raise AnalysisBroken('UNGET-EOF: record Tokens not found')
+    fld = [f for f in rec['fields'] if f['n'] == 'unget']
+    if not fld:
+        raise AnalysisBroken('UNGET-EOF: Tokens::unget not found')
+    et = rec['types'][fld[0]['t']].split('[')[0].strip()
+    signed = et in ('char', 'signed char', 'short', 'int', 'long', 'int8_t', 'int16_t', 'int32_t')
+    # the store must come from an int-valued expression and an EOF must be able to reach it: look for the store
+    un = prog.fn('tokens_unget_char')
+    stores = [n for n in un.nodes.values() if n['k'] == 'BinaryOperator' and n.get('op') == '=' and 'unget' in show(kids(n)[0])]
+    if not stores:
+        raise AnalysisBroken('UNGET-EOF: tokens_unget_char does not store into unget[]')
+    obs = [Ob('UNGET-EOF', rec['file'], rec['line'], 'Tokens', 'unget-element', DISCHARGED if signed else VIOLATED,
+              '' if signed else 'Tokens::unget elements are %s: a pushed-back EOF (-1) is read back as %d, an ordinary character' % (
+                  et, (1 << (type_width(et) or 8)) - 1),
+              'element type %s converts back to the int that was stored' % et, False)]
+    return RuleResult('UNGET-EOF', obs, 1, {})
